@@ -16,7 +16,8 @@ The theorems are about `Model.Retransmit.run P evs` for **every** parameter trip
 `P = (ACK_TIMEOUT, MAX_RETRANSMIT, NSTART)` and **every** list of events: calls being made (with or
 without deadline), time passing, housekeeping ticks with any caller-chosen `now` (so every tick timing
 and, losses being the absence of events, every loss pattern), messages carrying a pending message ID
-coming back (acknowledgement, reset, piggybacked response), separate responses, cancellations /
+coming back (acknowledgement, reset, piggybacked response), separate responses (which wake the writer of a
+still pending request, F21), cancellations /
 deadlines, edits of the caller's request.  The log lists entries most recent first: in
 `pre ++ x :: post`, `post` is what happened before `x`.
 
@@ -32,7 +33,7 @@ open CoapVerif CoapVerif.Model.Retransmit CoapVerif.Lemmas.Retransmit CoapVerif.
 
 theorem shape_agrees :
     expiredWhenGE = true ∧ deadlineStrict = true ∧ retransmitAddend = 1 ∧ expiryBeforeRetransmit = true ∧
-    recvRemovesByMID = true ∧ storesClone = true ∧ deferredRemovalByMID = true := by decide
+    recvRemovesByMID = true ∧ storesClone = true ∧ deferredRemovalByMID = true ∧ responseWakesWriter = true := by decide
 
 /-! ## bounded, spaced, identical copies -/
 
@@ -158,6 +159,22 @@ theorem ack_in_time_succeeds (P : Params) (evs : List Ev) (id tag : Nat)
     rw [now_acked] at this
     exact this
 
+/-- The acknowledgement got lost but the response (matched by token) gets back while the request is still pending
+    (attempts not exhausted, not cancelled) and nothing has reached the call's token handler before: the response is
+    an implicit acknowledgement (RFC 7252 §5.2.2) — the call returns it at once … (F21; needs `responseWakesWriter`) -/
+theorem response_in_time_succeeds (P : Params) (evs : List Ev) (id tag : Nat) (c : Call)
+    (hp : isPending (run P evs).pend id = true) (hf : findCall (run P evs).calls id = some c) (hb : c.buf = none) :
+    Entry.ret id (.ok tag) (run P evs).now ∈ (run P (evs ++ [.resp id tag])).log := by
+  have := (deliver_pending (inv_run P evs) (tag := tag) hp hf hb).1
+  simpa [run, runFrom, List.foldl_append, step] using this
+
+/-- … and it counts as a stop: `silent_after_stop` forbids any later copy. -/
+theorem response_is_stop (P : Params) (evs : List Ev) (id tag : Nat) (c : Call)
+    (hp : isPending (run P evs).pend id = true) (hf : findCall (run P evs).calls id = some c) (hb : c.buf = none) :
+    ∃ t, Entry.stop id t ∈ (run P (evs ++ [.resp id tag])).log := by
+  have := (deliver_pending (inv_run P evs) (tag := tag) hp hf hb).2
+  simpa [run, runFrom, List.foldl_append, step] using this
+
 /-- Empty acknowledgement first, separate response later: once the writer has been woken (stop entry) and the
     call has not returned (it is not marked done: not cancelled, no deadline, no earlier response), a response
     with its token makes it return successfully with that response. -/
@@ -252,6 +269,11 @@ example : (run P0 [.send 0 7 none, .send 1 8 none, .mut 0 9, .advance 11, .tick 
 example : (run P0 [.send 0 7 none, .recvMid 0 .rst, .advance 50, .tick 0, .resp 0 3]).log.reverse =
     [.tx 0 0 0 7, .stop 0 0, .got 0 3, .ret 0 (.ok 3) 50] := by decide
 
+/-- F21: the ACK is lost, the separate response arrives after one retransmission: the writer is woken, the call
+    returns the response, nothing more is sent -/
+example : (run P0 [.send 0 7 none, .advance 11, .tick 0, .resp 0 4, .advance 10, .tick 0, .advance 10, .tick 0]).log.reverse =
+    [.tx 0 0 0 7, .tx 0 1 11 7, .got 0 4, .ret 0 (.ok 4) 11, .stop 0 11] := by decide
+
 /-- the hypothesis of `ack_in_time_succeeds` is satisfiable -/
 example : isPending (run P0 [.send 0 7 none, .advance 11, .tick 0]).pend 0 = true := by decide
 
@@ -270,6 +292,8 @@ open CoapVerif.Props.C06
 #print axioms cancel_returns
 #print axioms stopped_not_pending
 #print axioms ack_in_time_succeeds
+#print axioms response_in_time_succeeds
+#print axioms response_is_stop
 #print axioms ack_then_response_succeeds
 #print axioms ack_wakes_writer
 #print axioms exhaustion_or_reset_no_success
